@@ -706,3 +706,42 @@ Proof.
   - inversion Hf; subst. apply N.ltb_ge in H. lia.
   - exact (IH H Hs').
 Qed.
+
+(* ---------- the machine with the explicit lock (xstep) restricted to the locked Release is exec ---------- *)
+Lemma xstep_L : forall fx x l,
+  x_s (fst (xstep fx x (L l))) = fst (step fx (x_s x) l) /\ snd (xstep fx x (L l)) = snd (step fx (x_s x) l).
+Proof.
+  intros fx x l. destruct l; cbn [xstep]; try (destruct (step fx (x_s x) _) as [s1 r]; cbn; split; reflexivity).
+  cbn. split; reflexivity.
+Qed.
+
+Lemma xexec_L : forall fx ls x,
+  x_s (fst (xexec fx x (map L ls))) = fst (exec fx (x_s x) ls)
+  /\ snd (xexec fx x (map L ls)) = snd (exec fx (x_s x) ls).
+Proof.
+  induction ls as [|l ls IH]; intros x; cbn [map xexec exec]; [split; reflexivity|].
+  pose proof (xstep_L fx x l) as [A B].
+  destruct (xstep fx x (L l)) as [x1 y]. destruct (step fx (x_s x) l) as [s1 r]. cbn [fst snd] in A, B. subst.
+  specialize (IH x1). destruct (xexec fx x1 (map L ls)) as [x2 ys]. destruct (exec fx (x_s x1) ls) as [s2 xs].
+  cbn [fst snd] in *. destruct IH as [-> ->]. split; reflexivity.
+Qed.
+
+Lemma locked_reachable : forall fx ls, locked_only ls -> reachable fx (x_s (fst (xexec fx xinit ls))).
+Proof. intros fx ls [ls0 ->]. exists ls0. symmetry. apply (xexec_L fx ls0 xinit). Qed.
+
+(* all interleavings of the atomic (lock-holding) calls: unique, increasing, below the stored lease *)
+Theorem locked_unique : forall fx ls, locked_only ls -> let s := x_s (fst (xexec fx xinit ls)) in
+  st_misuse s = false -> st_wrapped s = false -> forall k, NoDup (nums_of_key s k).
+Proof. intros fx ls HL s. apply (unique fx s). apply locked_reachable. exact HL. Qed.
+
+Theorem locked_increasing : forall fx ls, locked_only ls -> let s := x_s (fst (xexec fx xinit ls)) in
+  st_misuse s = false -> st_wrapped s = false -> forall i, StronglySorted N.lt (nums_of_obj s i).
+Proof. intros fx ls HL s. apply (increasing fx s). apply locked_reachable. exact HL. Qed.
+
+Theorem locked_below_stored : forall fx ls, locked_only ls -> let s := x_s (fst (xexec fx xinit ls)) in
+  st_misuse s = false -> st_wrapped s = false ->
+  forall k i n, In (k, i, n) (st_hist s) -> n + 1 <= sval (st_store s k).
+Proof.
+  intros fx ls HL s Hm Hw k i n Hin.
+  pose proof (below_stored fx s (locked_reachable fx ls HL) Hm Hw k i n Hin). lia.
+Qed.
